@@ -368,7 +368,7 @@ Section Decode.
     intros Hbs. unfold sk_decrypt.
     destruct (_ || _) eqn:E1; [apply good_raise_is|].
     destruct (c_bs cr =? 0)%nat eqn:E2; [apply Nat.eqb_eq in E2; lia|].
-    destruct (negb _) eqn:E3; [apply good_raise_is|].
+    destruct (negb (_ mod _ =? 0)%nat) eqn:E3; [apply good_raise_is|].
     set (ctx := slice_to_neg _ _) in *.
     assert (Hne : ctx <> []).
     { rewrite Bool.orb_false_iff in E1. destruct E1 as [_ E1]. intros Hc. rewrite Hc in E1. discriminate. }
@@ -377,3 +377,136 @@ Section Decode.
     { exfalso. apply dec_nonempty. apply (f_equal (@rev N)) in Er. rewrite rev_involutive in Er. exact Er. }
     destruct (_ <? _)%N; [apply good_raise_is | apply good_ret].
   Qed.
+
+  Lemma slice_to_neg_len (d : bytes) n : (length (slice_to_neg d n) <= length d)%nat.
+  Proof. unfold slice_to_neg. destruct n; [cbn; lia|]. rewrite firstn_length. lia. Qed.
+  Lemma wf_slice_to_neg (d : bytes) n : wf_bytes d -> wf_bytes (slice_to_neg d n).
+  Proof. unfold slice_to_neg. destruct n; [constructor|]. apply wf_firstn. Qed.
+
+  Lemma sk_decrypt_ok cr ct r : fst (sk_decrypt dec cr ct) = Ok r -> dec_sane ->
+    (length (snd r) <= length ct)%nat /\ (wf_bytes ct -> wf_bytes (snd r)).
+  Proof.
+    unfold sk_decrypt. intros H [Hlen Hwf].
+    destruct (_ || _); [discriminate|]. destruct (c_bs cr =? 0)%nat; [discriminate|].
+    destruct (negb (_ mod _ =? 0)%nat); [discriminate|].
+    set (ctx := slice_to_neg _ _) in *. set (iv := firstn _ _) in *.
+    destruct (rev (dec _ iv ctx)); [discriminate|].
+    destruct (_ <? _)%N; [discriminate|]. inversion H; subst r. cbn [snd]. split.
+    - rewrite firstn_length. specialize (Hlen (c_sk_e cr) iv ctx).
+      pose proof (slice_to_neg_len (skipn (c_bs cr) ct) (c_icv cr)) as H1. fold ctx in H1.
+      rewrite skipn_length in H1. lia.
+    - intros Hct. apply wf_firstn, Hwf. unfold ctx. apply wf_slice_to_neg, wf_skipn, Hct.
+  Qed.
+
+  Definition crypto_ok (c : option crypto) : Prop :=
+    match c with Some cr => (0 < c_bs cr)%nat | None => True end.
+
+  Lemma decode_good c h data : crypto_ok c ->
+    goodP (wf_bytes data /\ dec_sane) (32770 * (N.of_nat (length data) + 1)) (decode_m dec mac c h data).
+  Proof.
+    intros Hc. unfold decode_m. unpack_step.
+    destruct (0 + _ <=? length data)%nat eqn:Hsz; [| apply goodP_of_good, good_raise_is].
+    cbn [fmt_size] in Hsz.
+    destruct h; [apply goodP_of_good, good_ret|].
+    set (rest := slice_from data hdr_size).
+    assert (Hrl : length rest = (length data - 28)%nat) by (unfold rest, slice_from, hdr_size; apply skipn_length).
+    assert (Hrw : wf_bytes data -> wf_bytes rest) by (intros; unfold rest, slice_from; apply wf_skipn; assumption).
+    apply goodP_bind_le with (a := (16385 * N.of_nat (length rest) + 1)%N)
+                             (b := (16385 * N.of_nat (length rest) + 1)%N); [| | intros; lia].
+    { eapply goodP_weaken; [| apply parse_payloads_good]. intros [? _]; auto. }
+    intros ps Hps.
+    destruct c as [cr|]; [| apply goodP_of_good; destruct (split_last ps) as [[? ?]|]; apply good_ret].
+    destruct (split_last ps) as [[init last]|] eqn:Esl; [| apply goodP_of_good, good_ret].
+    destruct (N.eqb (pl_type last) Payload_Type_SK) eqn:Et; [| apply goodP_of_good, good_ret].
+    destruct (negb (bytes_eqb _ _)); [apply goodP_of_good, good_raise_is|].
+    destruct (pl_type_sk_body _ Et) as (ct & nx & Eb). rewrite Eb.
+    assert (Hin : sk_within rest last).
+    { unfold parse_payloads in Hps. apply payloads_loop_sk_within in Hps.
+      rewrite Forall_forall in Hps. apply Hps. eapply split_last_in; exact Esl. }
+    unfold sk_within in Hin. rewrite Eb in Hin. destruct Hin as [Hctl Hctw].
+    apply goodP_bind_le with (a := 0%N) (b := (16385 * N.of_nat (length rest) + 1)%N);
+      [apply goodP_of_good, sk_decrypt_good; exact Hc | | intros; lia].
+    intros r Hr.
+    apply goodP_bind_ret.
+    split; [apply parse_payloads_good|].
+    intros [Hwf Hsane]. destruct (sk_decrypt_ok _ _ _ Hr Hsane) as [Hl Hw].
+    pose proof (parse_payloads_good (snd r) nx) as [_ Hb]. specialize (Hb (Hw (Hctw (Hrw Hwf)))). lia.
+  Qed.
+
+  Theorem decode_terminates c h data : crypto_ok c -> decode dec mac c h data <> Diverged.
+  Proof.
+    intros Hc. destruct (decode_good c h data Hc) as [Hs _]. unfold decode. intros E. rewrite E in Hs. exact Hs.
+  Qed.
+
+  Theorem decode_protocol_errors_only c h data : crypto_ok c ->
+    (exists m, decode dec mac c h data = Ok m)
+    \/ decode dec mac c h data = Raise InvalidSyntax
+    \/ decode dec mac c h data = Raise UnsupportedCriticalPayload.
+  Proof.
+    intros Hc. destruct (decode_good c h data Hc) as [Hs _]. unfold decode.
+    destruct (fst (decode_m dec mac c h data)) as [m|e|]; [left; eauto | | destruct Hs].
+    destruct e; try destruct Hs; auto.
+  Qed.
+
+  Theorem decode_linear c h data : crypto_ok c -> wf_bytes data -> dec_sane ->
+    (iterations dec mac c h data <= 32770 * (N.of_nat (length data) + 1))%N.
+  Proof.
+    intros Hc Hwf Hsane. destruct (decode_good c h data Hc) as [_ Hb]. apply Hb. split; assumption.
+  Qed.
+End Decode.
+
+(** without a crypto context the primitives are never called *)
+Lemma decode_m_clear_indep dec mac dec' mac' h d : decode_m dec mac None h d = decode_m dec' mac' None h d.
+Proof. reflexivity. Qed.
+
+Definition id_dec (k iv c : bytes) : bytes := c.
+Lemma id_dec_nonempty : forall k iv c, c <> [] -> id_dec k iv c <> [].
+Proof. intros; assumption. Qed.
+Lemma id_dec_sane : dec_sane id_dec.
+Proof. split; intros; unfold id_dec; [lia | assumption]. Qed.
+
+Theorem decode_clear_terminates dec mac h data : decode dec mac None h data <> Diverged.
+Proof.
+  unfold decode. rewrite (decode_m_clear_indep dec mac id_dec mac).
+  apply (decode_terminates id_dec mac id_dec_nonempty None h data I).
+Qed.
+
+Theorem decode_clear_protocol_errors_only dec mac h data :
+  (exists m, decode dec mac None h data = Ok m)
+  \/ decode dec mac None h data = Raise InvalidSyntax
+  \/ decode dec mac None h data = Raise UnsupportedCriticalPayload.
+Proof.
+  unfold decode. rewrite (decode_m_clear_indep dec mac id_dec mac).
+  apply (decode_protocol_errors_only id_dec mac id_dec_nonempty None h data I).
+Qed.
+
+Theorem decode_clear_linear dec mac h data : wf_bytes data ->
+  (iterations dec mac None h data <= 16385 * (N.of_nat (length data) + 1))%N.
+Proof.
+  intros Hwf. unfold iterations. rewrite (decode_m_clear_indep dec mac id_dec mac).
+  unfold decode_m. unpack_step.
+  destruct (0 + _ <=? length data)%nat eqn:Hsz; [| cbn [raise snd]; lia].
+  cbn [fmt_size] in Hsz. destruct h; [cbn [ret snd]; lia|].
+  set (rest := slice_from data hdr_size).
+  assert (Hrl : length rest = (length data - 28)%nat) by (unfold rest, slice_from, hdr_size; apply skipn_length).
+  assert (Hrw : wf_bytes rest) by (unfold rest, slice_from; apply wf_skipn; assumption).
+  pose proof (parse_payloads_good rest (be_decode (firstn 1 (skipn 8 (skipn 8 (skipn 0 data)))))) as [_ Hb].
+  specialize (Hb Hrw). unfold bind.
+  destruct (fst (parse_payloads rest _)); cbn [fst snd]; [| lia | lia].
+  destruct (split_last a) as [[? ?]|]; cbn [ret snd]; lia.
+Qed.
+
+From Codec Require Import Toy.
+Lemma toy_dec_wf_from k iv i c : wf_bytes (toy_dec_from k iv i c).
+Proof.
+  revert i; induction c as [|b c IH]; intros i; cbn; [constructor|].
+  constructor; [unfold is_byte; apply N.mod_lt; discriminate | apply IH].
+Qed.
+Lemma toy_dec_ok : (forall k iv c, c <> [] -> toy_dec k iv c <> []) /\ dec_sane toy_dec.
+Proof.
+  split; [| split].
+  - intros k iv c Hc E. apply (f_equal (@length N)) in E. rewrite toy_dec_length in E.
+    destruct c; [congruence | discriminate].
+  - intros. rewrite toy_dec_length. lia.
+  - intros. apply toy_dec_wf_from.
+Qed.
